@@ -536,6 +536,7 @@ type Contract struct {
 	Uses     []string // lemmas (by name) assumed as hypotheses inside this function
 	UsesLate []string // lemmas assumed only at the returns
 	AliasSame map[string]bool // "a|b": aliased slices a and b start at the same element when they share memory
+	Gotos    map[string][]*Clause // "label#k" -> conditions under which the k-th goto to label may be taken
 	Afters   map[string][]*Clause // "pkg.F#k" -> assertions proved (then assumed) right after the block-level statement containing the k-th call of pkg.F
 	Hide     []string // spec functions whose defining axioms (`;@ defines f` in the prelude) are not shipped with this function's VCs
 	Inlines  []string          // lemma functions: callees to execute by their bodies although they have contracts
@@ -572,7 +573,7 @@ type ContractSet struct {
 var clauseKeywords = map[string]bool{
 	"func": true, "props": true, "requires": true, "ensures": true, "assigns": true, "loop": true, "alias": true,
 	"inline": true, "trusted": true, "panics": true, "nooverflow": true, "lemma": true, "pure": true, "opaque": true,
-	"extern": true, "assert": true, "fresh": true, "maybenil": true, "package": true, "pred": true, "tagset": true, "aset": true, "reads": true, "inlines": true, "unroll": true, "exit": true, "use": true, "hide": true, "after": true, "uselate": true,
+	"extern": true, "assert": true, "fresh": true, "maybenil": true, "package": true, "pred": true, "tagset": true, "aset": true, "reads": true, "inlines": true, "unroll": true, "exit": true, "use": true, "hide": true, "after": true, "uselate": true, "goto": true,
 }
 
 // assignSets: `//@ aset name := $.f, $.g[0:4]` — a reusable list of assigns items, `$` is the argument.
@@ -794,6 +795,24 @@ func (cs *ContractSet) ReadFile(path, pkgName string, external bool) error {
 					return err
 				}
 				cur.Asserts = append(cur.Asserts, c)
+			case "goto":
+				// goto <label> <k> assert[tags] expr
+				f := strings.Fields(rest)
+				if len(f) < 4 || !strings.HasPrefix(f[2], "assert") {
+					return fmt.Errorf("%s: goto needs 'label k assert[tags] expr'", l.pos)
+				}
+				gi := strings.Index(rest, f[2])
+				_, gtags := splitTags(f[2])
+				gbody := strings.TrimSpace(rest[gi+len(f[2]):])
+				ge, err := ParseCExpr(gbody, l.pos)
+				if err != nil {
+					return err
+				}
+				if cur.Gotos == nil {
+					cur.Gotos = map[string][]*Clause{}
+				}
+				gk := f[0] + "#" + f[1]
+				cur.Gotos[gk] = append(cur.Gotos[gk], &Clause{Tags: gtags, E: ge, Src: gbody, Pos: l.pos})
 			case "after":
 				// after pkg.F k assert[tags] expr
 				f := strings.Fields(rest)
